@@ -498,6 +498,7 @@ type w4File struct {
 	Name  string `json:"name"`
 	Kind  string `json:"kind"` // exact | default | other | broken | nontoml
 	Fault string `json:"fault,omitempty"`
+	Link  bool   `json:"link,omitempty"` // a symbolic link to a file outside the tree
 }
 
 type w4Tree struct {
@@ -543,6 +544,8 @@ func runW4C12(t *testing.T, job *Job, seed uint64, rp *Replay) RunOut {
 		for i := range tr.Files {
 			if r.Chance(0.08) {
 				tr.Files[i].Fault = []string{"eacces", "eio"}[r.Intn(2)]
+			} else if r.Chance(0.08) {
+				tr.Files[i].Link = true
 			}
 		}
 		switch r.Pick(8, 1, 1) {
@@ -562,7 +565,14 @@ func runW4C12(t *testing.T, job *Job, seed uint64, rp *Replay) RunOut {
 			d.ID = [4]uint16{otherID.Bus, otherID.Vendor, otherID.Product, otherID.Version}
 		case "broken":
 			d.ID = [4]uint16{devID.Bus, devID.Vendor, devID.Product, devID.Version}
-			switch marker % 4 {
+			switch marker % 6 {
+			case 4:
+				// a document on which go-toml v2.0.3 panics instead of returning an error
+				t := d.TOML()
+				return []byte(strings.Replace(t, "octave = ", "octave = { type = \"action\" } #", 1))
+			case 5:
+				t := d.TOML()
+				return []byte(strings.Replace(t, "velocity = ", "velocity = [1, 2] #", 1))
 			case 0:
 				return []byte("collision_mode = \n[[[")
 			case 1:
@@ -582,6 +592,14 @@ func runW4C12(t *testing.T, job *Job, seed uint64, rp *Replay) RunOut {
 	}
 	for i, f := range tr.Files {
 		if missing(f.Dir) {
+			continue
+		}
+		if f.Link {
+			// the user keeps the file elsewhere and links it into the configuration directory
+			target := fmt.Sprintf("/home/user/dotfiles/hidi/%d-%s", i, f.Name)
+			fsys.Put(target, render(f.Kind, i))
+			fsys.PutSymlink(f.Dir+"/"+f.Name, target)
+			ro.Faults["symlinked_file"]++
 			continue
 		}
 		fsys.Put(f.Dir+"/"+f.Name, render(f.Kind, i))
